@@ -42,17 +42,19 @@ def locking_case(draw):
   prefill = draw(st.sampled_from([0, 0, 1, 3, 497, 498, 499, 500, 500]))
   n = draw(st.integers(1, 14))
   ops = draw(st.lists(st.sampled_from(["append", "append", "appendleft", "appendleft", "consume",
-                                       "consume_right", "clear", "len"]), min_size=n, max_size=n))
+                                       "consume_right", "clear", "len", "popleft", "pop"]),
+                      min_size=n, max_size=n))
   return {"kind": "locking", "prefill": prefill, "ops": ops}
 
 
 @st.composite
 def queued_case(draw):
-  prefill = draw(st.sampled_from([0, 3, 497, 498, 499, 500, 500]))
+  cap = draw(st.sampled_from([500, 500, 4, 2, 1]))
+  prefill = draw(st.sampled_from([0, 3, 497, 498, 499, 500, 500])) if cap == 500 else draw(st.integers(0, cap))
   n = draw(st.integers(1, 7))
   ops = draw(st.lists(st.sampled_from(["post_fifo", "post_fifo", "post_lifo", "post_lifo", "next_rtc"]),
                       min_size=n, max_size=n))
-  return {"kind": "queued", "prefill": prefill, "ops": ops}
+  return {"kind": "queued", "prefill": prefill, "ops": ops, "cap": cap}
 
 
 LEAF = {"n": 1, "parent": [-1], "init": [None], "react": [{"VA": ["handle"]}], "sigs": ["VA"],
@@ -68,12 +70,13 @@ class C16(Prop):
           "queue content after every prefix is observed black-box by re-running the prefix on a "
           "fresh chart and draining it through complete_circuit. (b) LockingDeque (the active "
           "object's queue) with pre-fill 0/1/3/497..500 and up to 14 operations append, "
-          "appendleft, consume (= wait(block=False)+popleft), consume_right (wait+pop), clear, "
-          "len, with the token queue class substituted by a subclass that raises instead of "
+          "appendleft, consume (= wait(block=False)+popleft), consume_right (wait+pop), raw popleft/pop "
+          "(taken straight out, leaving their token behind), clear, len, with the token queue class substituted by a subclass that raises instead of "
           "blocking forever. Oracle: length <= capacity; below capacity a post adds exactly the "
           "new item at the back (fifo) / front (lifo); at capacity the new item is at the back / "
           "front and exactly one old item is displaced with the others keeping their order; "
-          "tokens == pending after every step; clear() never raises and leaves both at 0; no "
+          "tokens == pending after every step (>= pending once an item was taken out without its "
+          "token); clear() never raises and leaves both at 0; no "
           "operation would block. Non-trivial: the history contains an overflow post or a clear "
           "on an empty queue; distinct = distinct case digests.")
   assumptions = [
@@ -120,7 +123,8 @@ class C16(Prop):
         except stdqueue.Empty:
           results.append("empty")
         else:
-          results.append(ld.popleft())
+          # as the active object's thread does: a token may outlive its event
+          results.append(ld.popleft() if len(ld) >= 1 else "spare-token")
           ld.task_done()
       elif op == "consume_right":
         try:
@@ -128,8 +132,14 @@ class C16(Prop):
         except stdqueue.Empty:
           results.append("empty")
         else:
-          results.append(ld.pop())
+          results.append(ld.pop() if len(ld) >= 1 else "spare-token")
           ld.task_done()
+      elif op in ("popleft", "pop"):
+        # taken straight out, without first waiting for a wake-up token
+        try:
+          results.append(getattr(ld, op)())
+        except IndexError:
+          results.append("empty")
       elif op == "clear":
         ld.clear()
         results.append(None)
@@ -156,7 +166,10 @@ class C16(Prop):
           return nontrivial, classes + ["stopped_at_known_finding"]
       if len(content) > CAP:
         raise PropertyViolation("%s: holds %d > capacity" % (where, len(content)), "C16:bound")
-      if tokens != len(content):
+      raw = any(o in ("popleft", "pop") for o in ops[:upto])
+      if (tokens != len(content) and not raw) or tokens < len(content):
+        # items taken out without their token leave spare tokens behind (harmless wake-ups);
+        # there must never be fewer tokens than pending events
         raise PropertyViolation("%s: %d wake-up tokens for %d pending events" % (
           where, tokens, len(content)), "C16:tokens")
       if upto == 0:
@@ -185,9 +198,19 @@ class C16(Prop):
           if full and not one_removed(prev, rest):
             raise PropertyViolation("%s: overflow did not displace exactly one old item" % where,
                                     "C16:overflow")
-        elif op in ("consume", "consume_right"):
+        elif op in ("popleft", "pop"):
           if not prev:
             if res != "empty" or content:
+              raise PropertyViolation("%s: %s on empty queue gave %s" % (where, op, res), "C16:pop")
+          else:
+            exp = prev[0] if op == "popleft" else prev[-1]
+            rest = prev[1:] if op == "popleft" else prev[:-1]
+            if res != exp or content != rest:
+              raise PropertyViolation("%s: %s gave %s, expected %s" % (where, op, res, exp), "C16:pop")
+          classes.append("raw_pop")
+        elif op in ("consume", "consume_right"):
+          if not prev:
+            if res not in ("empty", "spare-token") or content:
               raise PropertyViolation("%s: consume on empty queue gave %s" % (where, res), "C16:consume")
           else:
             exp = prev[0] if op == "consume" else prev[-1]
@@ -207,10 +230,16 @@ class C16(Prop):
     return nontrivial, classes
 
   # ---------------- (a) queued charts
-  def run_queued(self, prefill, ops, upto):
+  def run_queued(self, prefill, ops, upto, cap=CAP):
     from miros.event import Event, signals
+    from miros.hsm import HsmWithQueues
     rt = chartgen.build(LEAF, decorate=True)
-    chart = hsmcheck.make_host("queued")
+    if cap == CAP:
+      chart = hsmcheck.make_host("queued")
+    else:
+      # a chart class that declares its own (smaller) capacity
+      small = type("VfSmallChart", (chartgen.bounded(HsmWithQueues),), {"QUEUE_SIZE": cap})
+      chart = small()
     chart.start_at(rt.fns[0])
     steps = []
     real_dispatch = chart.dispatch
@@ -240,22 +269,23 @@ class C16(Prop):
 
   def check_queued(self, case, stats):
     prefill, ops = case["prefill"], case["ops"]
-    nontrivial, classes = False, ["queued"]
+    cap = case.get("cap", CAP)
+    nontrivial, classes = False, ["queued", "queued_cap_%d" % cap]
     prev = None
     for upto in range(0, len(ops) + 1):
-      where = "HsmWithQueues prefill=%d ops=%s" % (prefill, ops[:upto])
+      where = "HsmWithQueues(QUEUE_SIZE=%d) prefill=%d ops=%s" % (cap, prefill, ops[:upto])
       try:
-        content, results = self.run_queued(prefill, ops, upto)
+        content, results = self.run_queued(prefill, ops, upto, cap)
       except HarnessBound as e:
         raise PropertyViolation("%s did not terminate" % where, "C16:hang")
       except Exception as e:
         raise PropertyViolation("%s raised %s: %s" % (where, type(e).__name__, e), "C16:raises")
-      if len(content) > CAP:
+      if len(content) > cap:
         raise PropertyViolation("%s: holds %d > capacity" % (where, len(content)), "C16:bound")
       if upto > 0:
         op, res = ops[upto - 1], results[-1]
         if op in ("post_fifo", "post_lifo"):
-          full = len(prev) >= CAP
+          full = len(prev) >= cap
           back = op == "post_fifo"
           if full:
             nontrivial = True
